@@ -214,6 +214,15 @@ func (env *ByteEnv) evalInt(e ast.Expr, v int) (int64, bool) {
 	switch x := e.(type) {
 	case *ast.IndexExpr:
 		obj := ObjOf(env.Info, x.X)
+		if _, have := env.Tables[obj]; !have && obj != nil && env.Prog != nil {
+			// a package-level lookup table (literal, or filled by a constant initialiser function)
+			if t := env.Prog.ConstTableOf(obj); t != nil {
+				if env.Tables == nil {
+					env.Tables = map[types.Object][]int64{}
+				}
+				env.Tables[obj] = t
+			}
+		}
 		if tbl, ok := env.Tables[obj]; ok && obj != nil {
 			i, ok := env.evalInt(x.Index, v)
 			if ok && i >= 0 && int(i) < len(tbl) {
